@@ -2,6 +2,7 @@
 package c05
 
 import (
+	"context"
 	"encoding/json"
 	"fmt"
 	"os"
@@ -11,6 +12,8 @@ import (
 	"strings"
 	"time"
 
+	"github.com/dolthub/dolt/go/store/chunks"
+	"github.com/dolthub/dolt/go/store/constants"
 	"github.com/dolthub/dolt/go/store/hash"
 	"github.com/dolthub/dolt/go/store/nbs"
 
@@ -35,22 +38,28 @@ type Manifest struct {
 }
 
 type Op struct {
-	Op    string   `json:"op"`
-	Id    int      `json:"id"`
-	Mt    int64    `json:"mt"`
-	Sz    int      `json:"sz"`
-	H     string   `json:"h"`
-	Arch  bool     `json:"arch"`
-	Gc    bool     `json:"gc"`
-	Last  string   `json:"last"`
-	New   Manifest `json:"new"`
-	Abort bool     `json:"abort"`
-	Hook  []Op     `json:"hook"`
-	Grace int64    `json:"grace"`
-	Probe int64    `json:"probe"`
-	Extra []string `json:"extra"`
-	After []Op     `json:"after"`
-	Under []Op     `json:"under"`
+	Op         string   `json:"op"`
+	Id         int      `json:"id"`
+	Mt         int64    `json:"mt"`
+	Sz         int      `json:"sz"`
+	H          string   `json:"h"`
+	Arch       bool     `json:"arch"`
+	Gc         bool     `json:"gc"`
+	Last       string   `json:"last"`
+	New        Manifest `json:"new"`
+	Abort      bool     `json:"abort"`
+	Hook       []Op     `json:"hook"`
+	Grace      int64    `json:"grace"`
+	Probe      int64    `json:"probe"`
+	Extra      []string `json:"extra"`
+	After      []Op     `json:"after"`
+	Under      []Op     `json:"under"`
+	Up         Manifest `json:"up"`
+	Cj         []Spec   `json:"cj"`
+	C          Spec     `json:"c"`
+	X          int      `json:"x"`
+	RootChange bool     `json:"root_change"`
+	Mid        int      `json:"mid"`
 }
 
 type Case struct {
@@ -58,6 +67,9 @@ type Case struct {
 	M    Manifest `json:"m"`
 	Text []int    `json:"text"`
 	Ops  []Op     `json:"ops"`
+	Up   Manifest `json:"up"`
+	Cj   []Spec   `json:"cj"`
+	C    Spec     `json:"c"`
 }
 
 type PObs struct {
@@ -89,10 +101,16 @@ type Entry struct {
 }
 
 type Obs struct {
-	WText  []int   `json:"wtext,omitempty"`
-	WClass string  `json:"wclass,omitempty"`
-	Parse  *PObs   `json:"parse,omitempty"`
-	Trace  []Entry `json:"trace,omitempty"`
+	WText  []int    `json:"wtext,omitempty"`
+	WClass string   `json:"wclass,omitempty"`
+	Parse  *PObs    `json:"parse,omitempty"`
+	Trace  []Entry  `json:"trace,omitempty"`
+	Conj   *ConjObs `json:"conj,omitempty"`
+}
+
+type ConjObs struct {
+	Applied bool   `json:"applied"`
+	Specs   []Spec `json:"specs"`
 }
 
 func toStr(b []int) string {
@@ -120,6 +138,14 @@ func toV(m Manifest) nbs.VerifC05Manifest {
 		v.Appendix = append(v.Appendix, nbs.VerifC05Spec{Name: s.Name, Count: s.Count})
 	}
 	return v
+}
+
+func toVS(l []Spec) []nbs.VerifC05Spec {
+	var out []nbs.VerifC05Spec
+	for _, s := range l {
+		out = append(out, nbs.VerifC05Spec{Name: s.Name, Count: s.Count})
+	}
+	return out
 }
 
 func fromV(v nbs.VerifC05Manifest) *Manifest {
@@ -161,6 +187,17 @@ func Run(raw json.RawMessage) (any, error) {
 		return Obs{Parse: parseObs([]byte(toStr(c.Text)))}, nil
 	case "trace":
 		return runTrace(c.Ops)
+	case "conj":
+		_, calls, class := nbs.VerifC05Conjoin(nil, toV(c.Up), toVS(c.Cj), nbs.VerifC05Spec{Name: c.C.Name, Count: c.C.Count}, nil, nil)
+		if class != "ok" {
+			return nil, fmt.Errorf("conjoin: %s", class)
+		}
+		o := &ConjObs{Specs: []Spec{}}
+		if len(calls) > 0 {
+			o.Applied = true
+			o.Specs = fromV(calls[0].New).Specs
+		}
+		return Obs{Conj: o}, nil
 	}
 	return nil, fmt.Errorf("unknown kind %q", c.Kind)
 }
@@ -170,11 +207,14 @@ func Run(raw json.RawMessage) (any, error) {
 var base = time.Unix(1700000000, 0)
 
 type world struct {
-	dir    string
-	fmS    *nbs.VerifC05FM
-	fmP    *nbs.VerifC05FM
-	tmpIds map[string]int // real temp manifest name -> model id
-	trace  []Entry
+	dir            string
+	fmS            *nbs.VerifC05FM
+	fmP            *nbs.VerifC05FM
+	tmpIds         map[string]int // real temp manifest name -> model id
+	trace          []Entry
+	held           int // > 0 while some actor of this harness holds the LOCK (inside a write hook / under-lock hook)
+	spurious       bool
+	storeA, storeB *nbs.NomsBlockStore
 }
 
 func (w *world) at(t int64) time.Time { return base.Add(time.Duration(t) * time.Second) }
@@ -307,6 +347,27 @@ func (w *world) run(ops []Op) {
 			w.update(op)
 		case "prune":
 			w.prune(op)
+		case "conjoin":
+			w.conjoin(op)
+		case "b_commit":
+			w.bCommit(op)
+		case "a_open":
+			w.aOpen()
+		case "a_rebase":
+			w.aOpen()
+			if err := w.storeA.Rebase(context.Background()); err != nil {
+				panic(err)
+			}
+		case "a_prune":
+			w.aPrune(op)
+		case "fresh":
+			p := filepath.Join(w.dir, "other_"+strconv.Itoa(op.Id))
+			_ = os.WriteFile(p, []byte("x"), 0644)
+			mt := int64(time.Since(base)/time.Second) - 1
+			_ = os.Chtimes(p, w.at(mt), w.at(mt))
+			w.emit(map[string]any{"k": "ETouch", "id": op.Id, "mt": mt}, 0, true)
+		case "drop_first_spec":
+			w.dropFirstSpec(op)
 		default:
 			panic("unknown op " + op.Op)
 		}
@@ -319,6 +380,8 @@ func (w *world) update(op Op) {
 	hookCalled := false
 	hook := func() error {
 		hookCalled = true
+		w.held++
+		defer func() { w.held-- }()
 		w.claimTemp(op.Id, op.Mt)
 		w.ageLock()
 		w.emit(lockStep, 0, false)
@@ -333,6 +396,9 @@ func (w *world) update(op Op) {
 	if !hookCalled {
 		switch class {
 		case "busy":
+			if w.held == 0 {
+				w.spurious = true // nobody in this harness holds the LOCK: the 100 ms flock timeout fired under load
+			}
 			w.emit(lockStep, 8, true)
 		case "write":
 			w.claimTemp(op.Id, op.Mt)
@@ -371,6 +437,8 @@ func (w *world) prune(op Op) {
 	}
 	under := func() {
 		underCalled = true
+		w.held++
+		defer func() { w.held-- }()
 		w.trace[lockIdx].Code = 0
 		w.trace[lockIdx].Snap = w.snap()
 		w.run(op.Under)
@@ -396,6 +464,9 @@ func (w *world) prune(op Op) {
 	if !underCalled {
 		switch {
 		case res.LockErr == "busy" || hasSkip(res.Skipped, "could not take the manifest lock"):
+			if w.held == 0 {
+				w.spurious = true
+			}
 			w.trace[lockIdx].Code = 8
 		case res.LockErr != "":
 			w.trace[lockIdx].Code = 6
@@ -430,6 +501,223 @@ func runTrace(ops []Op) (any, error) {
 		return nil, err
 	}
 	defer w.fmP.Close()
+	defer func() {
+		if w.storeA != nil {
+			w.storeA.Close()
+		}
+		if w.storeB != nil {
+			w.storeB.Close()
+		}
+	}()
 	w.run(ops)
+	if w.spurious {
+		return nil, fmt.Errorf("spurious-lock-timeout")
+	}
 	return Obs{Trace: w.trace}, nil
+}
+
+// ---------------------------------------------------------------------------
+// conjoinOperation.updateManifest against the real fileManifest
+
+func (w *world) conjoin(op Op) {
+	hook := func(n int, last string, m nbs.VerifC05Manifest) func() error {
+		return func() error {
+			w.held++
+			defer func() { w.held-- }()
+			w.claimTemp(op.Id+n, op.Mt)
+			w.ageLock()
+			w.emit(map[string]any{"k": "ULock", "gc": false, "last": last, "new": fromV(m)}, 0, false)
+			w.emit(map[string]any{"k": "UTemp", "id": op.Id + n, "mt": op.Mt}, 0, true)
+			if n == 0 {
+				w.run(op.Hook)
+			}
+			return nil
+		}
+	}
+	after := func(n int, c nbs.VerifC05Call) {
+		if c.Class == "busy" {
+			if w.held == 0 {
+				w.spurious = true
+			}
+			w.emit(map[string]any{"k": "ULock", "gc": false, "last": c.Last, "new": fromV(c.New)}, 8, true)
+			return
+		}
+		code, ok := updCodes[c.Class]
+		if !ok {
+			code = 98
+		}
+		i := w.emit(map[string]any{"k": "UFinish"}, code, true)
+		if c.Class == "ok" {
+			w.trace[i].Lock = c.Ret.Lock
+		}
+	}
+	nbs.VerifC05Conjoin(w.fmS, toV(op.Up), toVS(op.Cj), nbs.VerifC05Spec{Name: op.C.Name, Count: op.C.Count}, hook, after)
+}
+
+// ---------------------------------------------------------------------------
+// real NomsBlockStore handles on the directory: B writes, A prunes
+
+func noAddrs(chunks.Chunk) chunks.InsertAddrsCb {
+	return func(context.Context, hash.HashSet, chunks.PendingRefExists) error { return nil }
+}
+
+func openStore(dir string) *nbs.NomsBlockStore {
+	st, err := nbs.NewLocalStore(context.Background(), constants.FormatDefaultString, dir, 1<<16, nbs.NewUnlimitedMemQuotaProvider(), false)
+	if err != nil {
+		panic(err)
+	}
+	if _, err := st.Root(context.Background()); err != nil {
+		panic(err)
+	}
+	return st
+}
+
+func (w *world) aOpen() {
+	if w.storeA == nil {
+		w.storeA = openStore(w.dir)
+	}
+}
+
+func (w *world) tableNames() map[string]bool {
+	out := map[string]bool{}
+	ents, _ := os.ReadDir(w.dir)
+	for _, e := range ents {
+		if len(e.Name()) == 32 && hash.IsValid(e.Name()) {
+			out[e.Name()] = true
+		}
+	}
+	return out
+}
+
+func (w *world) diskManifest() (*Manifest, bool) {
+	b, err := os.ReadFile(filepath.Join(w.dir, nbs.VerifC05ManifestFileName))
+	if err != nil {
+		return nil, false
+	}
+	v, class := nbs.VerifC05Parse(b)
+	if class != "ok" {
+		panic("manifest does not parse: " + class)
+	}
+	return fromV(v), true
+}
+
+// emitPublish reports what a real store just did as model steps: the table files that appeared, then the manifest swap.
+func (w *world) emitPublish(before map[string]bool, prev *Manifest, had bool, op Op) {
+	k := 0
+	for name := range w.tableNames() {
+		if before[name] {
+			continue
+		}
+		p := filepath.Join(w.dir, name)
+		_ = os.Chtimes(p, w.at(op.Mt), w.at(op.Mt))
+		info, _ := os.Stat(p)
+		w.emit(map[string]any{"k": "STmpTable", "id": op.Id + k, "mt": op.Mt, "sz": int(info.Size())}, 0, false)
+		w.emit(map[string]any{"k": "SLand", "id": op.Id + k, "h": name, "arch": false}, 0, false)
+		k++
+	}
+	cur, ok := w.diskManifest()
+	if !ok || (had && cur.Lock == prev.Lock) {
+		return
+	}
+	mp := filepath.Join(w.dir, nbs.VerifC05ManifestFileName)
+	_ = os.Chtimes(mp, w.at(op.Mt), w.at(op.Mt))
+	last := "00000000000000000000000000000000"
+	if had {
+		last = prev.Lock
+	}
+	w.emit(map[string]any{"k": "ULock", "gc": false, "last": last, "new": cur}, 0, false)
+	w.emit(map[string]any{"k": "UTemp", "id": op.Mid, "mt": op.Mt}, 0, false)
+	i := w.emit(map[string]any{"k": "UFinish"}, 0, true)
+	w.trace[i].Lock = cur.Lock
+}
+
+func (w *world) bCommit(op Op) {
+	ctx := context.Background()
+	if w.storeB == nil {
+		w.storeB = openStore(w.dir)
+	}
+	before := w.tableNames()
+	prev, had := w.diskManifest()
+	c := chunks.NewChunk([]byte(fmt.Sprintf("c05-chunk-%04d", op.X)))
+	for try := 0; ; try++ {
+		if err := w.storeB.Put(ctx, c, noAddrs); err != nil {
+			panic(err)
+		}
+		last, err := w.storeB.Root(ctx)
+		if err != nil {
+			panic(err)
+		}
+		cur := last
+		if op.RootChange {
+			cur = c.Hash()
+		}
+		ok, err := w.storeB.Commit(ctx, cur, last)
+		if err != nil && strings.Contains(err.Error(), "timed out reading database manifest") && try < 5 {
+			continue
+		}
+		if err != nil {
+			panic(err)
+		}
+		if ok || try >= 3 {
+			break
+		}
+		if err := w.storeB.Rebase(ctx); err != nil {
+			panic(err)
+		}
+	}
+	w.emitPublish(before, prev, had, op)
+}
+
+func (w *world) dropFirstSpec(op Op) {
+	cur, ok := w.diskManifest()
+	if !ok || len(cur.Specs) == 0 {
+		return
+	}
+	nm := *cur
+	nm.Specs = append([]Spec{}, cur.Specs[1:]...)
+	nm.Lock = op.H
+	w.update(Op{Op: "update", Gc: false, Last: cur.Lock, New: nm, Id: op.Id, Mt: op.Mt})
+}
+
+func (w *world) aPrune(op Op) {
+	w.aOpen()
+	w.ageLock()
+	var stats nbs.PruneStats
+	var err error
+	for try := 0; try < 5; try++ {
+		stats, err = w.storeA.PruneUnreferencedWithGrace(context.Background(), time.Duration(op.Grace)*time.Second)
+		if err != nil || !hasSkip(stats.Skipped, "could not take the manifest lock") {
+			break
+		}
+	}
+	probe := int64(time.Since(base) / time.Second)
+	scan := w.emit(map[string]any{"k": "PScan", "grace": op.Grace, "probe": probe}, 0, false)
+	if err != nil {
+		w.trace[scan].Code = 97
+		w.trace[scan].Snap = w.snap()
+		return
+	}
+	if hasSkip(stats.Skipped, "not quiescent") {
+		w.trace[scan].Code = 20
+		w.trace[scan].Snap = w.snap()
+		return
+	}
+	lk := w.emit(map[string]any{"k": "PLock", "extra": nbs.VerifC05Upstream(w.storeA)}, 0, false)
+	switch {
+	case hasSkip(stats.Skipped, "could not take the manifest lock"):
+		w.spurious = true
+		w.trace[lk].Code = 8
+		w.trace[lk].Snap = w.snap()
+		return
+	case hasSkip(stats.Skipped, "the manifest was updated while pruning"):
+		w.trace[lk].Code = 22
+		w.trace[lk].Snap = w.snap()
+		return
+	}
+	code := 23
+	if hasSkip(stats.Skipped, "changed after the scan") {
+		code = 26
+	}
+	i := w.emit(map[string]any{"k": "TUnlinkAll"}, code, true)
+	w.trace[i].Aux = stats.FilesDeleted
 }
